@@ -8,6 +8,8 @@ import RarenaVerif.Model.Layout
 import RarenaVerif.Model.Handle
 import RarenaVerif.Model.Bytes
 import RarenaVerif.Model.File
+import RarenaVerif.Model.Conc
+import RarenaVerif.Model.HB
 
 open Rarena
 
@@ -220,6 +222,9 @@ def step (x : Sess) (toks : List String) : Step :=
     match h.toNat?, a.toNat?, s.toNat? with
     | some id, some a, some s =>
       if !okAlign a s then { sess := some x, out := "bad-op" }
+      -- `Allocator::alloc::<T>` answers zero-sized `T` itself (`RefMut::new_zst`), before `alloc_in` (and its
+      -- read-only guard) is reached
+      else if s == 0 then allocAnswer x id (.ok (.ok none, x.st)) .obj (toks.head! == "alloc_t_owned") 2 a
       else allocAnswer x id (allocT c x.st s a fuel) .obj (toks.head! == "alloc_t_owned") 2 a
     | _, _, _ => { sess := some x, out := "bad-op" }
   | ["alloc_d", h] | ["alloc_d_owned", h] =>
@@ -309,12 +314,12 @@ def step (x : Sess) (toks : List String) : Step :=
     | none => { sess := some x, out := "bad-op" }
   | ["clone", a] =>
     match a.toNat? with
-    | some a => simple { x with arenas := a :: x.arenas, refs := x.refs + 1 } "r=ok"
+    | some a => simple (x.cloneArena a) "r=ok"
     | none => { sess := some x, out := "bad-op" }
   | ["drop_arena", a] =>
     match a.toNat? with
     | some a =>
-      if x.arenas.contains a then simple { x with arenas := x.arenas.erase a, refs := x.refs - 1 } "r=ok"
+      if x.arenas.contains a then simple (x.dropArena a) "r=ok"
       else nohandle x
     | none => { sess := some x, out := "bad-op" }
   | ["rd", ty, ord, off] =>
@@ -465,9 +470,403 @@ partial def loop (h : IO.FS.Stream) (out : IO.FS.Stream) (sess : Option Sess) : 
 
 end Driver
 
+/-! ## `driver conc`: controlled schedules on the step machine (harness/PROTOCOL_SCHED.md) -/
+
+namespace Driver.ConcD
+
+open Rarena Rarena.Conc
+
+/-- result of a thread operation, as printed on a `res` line (without `r=`-less prefix) plus table effects -/
+inductive OpOut where
+  | text (s : String)
+  | alloc (id : Nat) (r : Except Err (Option Meta)) (hk : HKind) (owned : Bool) (mode : Nat) (talign : Nat)
+  | dropped (id : Nat) (detached : Bool) (extra : String)
+
+structure Thread where
+  tid : Nat
+  ops : List (List String)
+  idx : Nat := 0
+  cur : Option (Prog OpOut) := none
+  finished : Bool := false
+
+structure CS where
+  sess : Sess           -- tables (handles, arenas, dropCount, opts, cfg); `sess.st`/`sess.refs` mirror `sh`
+  sh : Shared
+  fills : List (Nat × UInt8)   -- last fill byte per handle
+  threads : List Thread
+  out : Array String := #[]
+  fuel : Nat
+
+def ordStr : Gen.Ord → String
+  | .relaxed => "rlx" | .acquire => "acq" | .release => "rel" | .acqRel => "acqrel" | .seqCst => "sc"
+
+def locStr : ALoc → String
+  | .sent => "sent" | .alloc => "alloc" | .minseg => "minseg" | .disc => "disc" | .refs => "refs"
+  | .node off => s!"node@{off}"
+
+def kindStrA : AKind → String
+  | .ld => "ld" | .st => "st" | .cas => "cas" | .casw => "casw" | .faa => "faa" | .fas => "fas"
+
+def evStr (tid : Nat) (e : Event) : String :=
+  let ords := "/".intercalate (e.site.ords.map ordStr)
+  s!"ev t={tid} k={kindStrA e.kind} loc={locStr e.loc} ord={ords} old={e.old} new={e.new} ok={if e.ok then 1 else 0} at=0"
+
+def naStr (tid : Nat) (cap : Nat) : NA → String
+  | .zero off len => s!"na t={tid} k=w lo={off} hi={off + len} src=clear"
+  | .fill off len _ => s!"na t={tid} k=w lo={off} hi={off + len} src=fill"
+  | .verify off len => s!"na t={tid} k=r lo={off} hi={off + len} src=verify"
+  | .unmount => s!"na t={tid} k=free lo=0 hi={cap} src=unmount"
+
+def syncSess (x : CS) : Sess := { x.sess with st := x.sh.st, refs := x.sh.refs }
+
+/-- the program of one operation, built when the operation starts -/
+def mkOp (x : CS) (toks : List String) : Prog OpOut :=
+  let c := x.sess.cfg
+  let cap := x.sh.st.cap
+  let fuel := x.fuel
+  let s := x.sess
+  let allocP (id : Nat) (p : Prog (Except Err (Option Meta))) (hk : HKind) (owned : Bool) (mode talign : Nat) : Prog OpOut := do
+    let r ← p
+    match r with
+    | .ok m? =>
+      -- `to_owned`: non-null byte handles and every typed handle clone the arena
+      if owned ∧ !(hk == .bytes ∧ m?.isNone) then do cloneC; pure (.alloc id r hk owned mode talign)
+      else pure (.alloc id r hk owned mode talign)
+    | .error _ => pure (.alloc id r hk owned mode talign)
+  let dropP (id : Nat) (detached : Bool) (explicit : Bool) : Prog OpOut :=
+    match s.find id with
+    | none => pure (.text "r=nohandle")
+    | some h => do
+      let dd := if detached then none else h.dropDealloc
+      match dd with
+      | some (off, size) => do let _ ← deallocC c off size fuel; pure ()
+      | none => pure ()
+      if h.holdsArena then dropArenaC else pure ()
+      if explicit then do
+        let ret ← deallocC c h.mt.memOff h.mt.memSize fuel
+        pure (.dropped id true s!"r=ok ret={if ret then 1 else 0}")
+      else pure (.dropped id detached "")
+  match toks with
+  | ["alloc_bytes", h, n] | ["alloc_bytes_owned", h, n] =>
+    match h.toNat?, n.toNat? with
+    | some id, some n => allocP id (allocBytesC c cap n fuel) .bytes (toks.head! == "alloc_bytes_owned") 0 1
+    | _, _ => pure (.text "bad-op")
+  | ["alloc_aligned", h, a, sz, n] | ["alloc_aligned_owned", h, a, sz, n] =>
+    match h.toNat?, a.toNat?, sz.toNat?, n.toNat? with
+    | some id, some a, some sz, some n =>
+      allocP id (allocAlignedC c cap sz a n fuel) .bytes (toks.head! == "alloc_aligned_owned") 1 a
+    | _, _, _, _ => pure (.text "bad-op")
+  | ["alloc_t", h, a, sz] | ["alloc_t_owned", h, a, sz] =>
+    match h.toNat?, a.toNat?, sz.toNat? with
+    | some id, some a, some sz =>
+      allocP id (if sz == 0 then pure (.ok none) else allocTC c cap sz a fuel) .obj (toks.head! == "alloc_t_owned") 2 a
+    | _, _, _ => pure (.text "bad-op")
+  | ["alloc_d", h] | ["alloc_d_owned", h] =>
+    match h.toNat? with
+    | some id => allocP id (allocTC c cap 8 8 fuel) .slot (toks.head! == "alloc_d_owned") 2 8
+    | none => pure (.text "bad-op")
+  | ["fill", h, b] =>
+    match h.toNat?, b.toNat? with
+    | some id, some b =>
+      match s.find id with
+      | some hd => if hd.kind == .slot then pure (.text "r=nohandle") else do
+          na (.fill hd.mt.ptrOff hd.mt.ptrSize (UInt8.ofNat b)); pure (.text s!"r=ok fillrec {id} {b}")
+      | none => pure (.text "r=nohandle")
+    | _, _ => pure (.text "bad-op")
+  | ["verify", h] =>
+    match h.toNat? with
+    | some id =>
+      match s.find id with
+      | some hd => do na (.verify hd.mt.ptrOff hd.mt.ptrSize); pure (.text s!"verify {id}")
+      | none => pure (.text "r=nohandle")
+    | none => pure (.text "bad-op")
+  | ["drop", h] => match h.toNat? with | some id => dropP id false false | none => pure (.text "bad-op")
+  | ["detach", h] => match h.toNat? with | some id => dropP id true false | none => pure (.text "bad-op")
+  | ["dealloc", h] => match h.toNat? with | some id => dropP id true true | none => pure (.text "bad-op")
+  | ["discard_freelist"] => do
+    let r ← discardFreelistC c fuel
+    match r with
+    | .ok n => pure (.text s!"r=ok val={n}")
+    | .error e => pure (.text s!"r={errStr e}")
+  | ["set_minseg", n] =>
+    match n.toNat? with
+    | some n => if c.ro then pure (.text "r=ok") else do store .minseg n "set_minimum_segment_size" 0; pure (.text "r=ok")
+    | none => pure (.text "bad-op")
+  | ["inc_discarded", n] =>
+    match n.toNat? with
+    | some n => do incDiscardedC c n; pure (.text "r=ok")
+    | none => pure (.text "bad-op")
+  | ["clone", a] =>
+    match a.toNat? with
+    | some a => do cloneC; pure (.text s!"r=ok clonerec {a}")
+    | none => pure (.text "bad-op")
+  | ["drop_arena", a] =>
+    match a.toNat? with
+    | some a => if s.arenas.contains a then do dropArenaC; pure (.text s!"r=ok droparenarec {a}") else pure (.text "r=nohandle")
+    | none => pure (.text "bad-op")
+  | ["refs"] => do let v ← load .refs "refs" 0; pure (.text s!"r=ok val={v}")
+  | _ => pure (.text "bad-op")
+
+/-- apply the table effects of a completed operation and produce its `res` text -/
+def finishOp (x : CS) (o : OpOut) : CS × String :=
+  match o with
+  | .text t =>
+    match t.splitOn " " with
+    | ["r=ok", "fillrec", id, b] =>
+      let id := id.toNat!; let b := UInt8.ofNat b.toNat!
+      ({ x with fills := (id, b) :: x.fills.filter (·.1 != id) }, "r=ok")
+    | ["verify", id] =>
+      let id := id.toNat!
+      match x.sess.find id, x.fills.find? (·.1 == id) with
+      | some hd, some (_, b) =>
+        let ok := (List.range hd.mt.ptrSize).all (fun k => x.sh.st.mem.rd (hd.mt.ptrOff + k) == b.toNat)
+        (x, s!"r=ok v={if ok then 1 else 0}")
+      | _, _ => (x, "r=ok v=1")
+    | ["r=ok", "clonerec", a] => ({ x with sess := { x.sess with arenas := a.toNat! :: x.sess.arenas } }, "r=ok")
+    | ["r=ok", "droparenarec", a] => ({ x with sess := { x.sess with arenas := x.sess.arenas.erase a.toNat! } }, "r=ok")
+    | _ => (x, t)
+  | .alloc id r hk owned mode talign =>
+    match r with
+    | .error e => (x, s!"r={errStr e}")
+    | .ok m? =>
+      let m := m?.getD Meta.null
+      let h : Handle := { mt := m, kind := hk, owned := owned, null := m?.isNone }
+      let sess := x.sess.put id h
+      let z := if x.sh.st.mem.allZero m.ptrOff m.ptrSize then 1 else 0
+      let am := if m.ptrSize == 0 then 0 else m.ptrOff % talign
+      let extra := match mode with
+        | 0 => s!" z={z}"
+        | 1 => s!" am={am}"
+        | _ => s!" am={am} z={z}"
+      ({ x with sess := sess }, s!"r=ok off={m.ptrOff} cap={m.ptrSize} boff={m.memOff} bcap={m.memSize}{extra}")
+  | .dropped id detached extra =>
+    match x.sess.find id with
+    | none => (x, "r=nohandle")
+    | some h =>
+      let sess := x.sess.erase id
+      let sess := if h.dropsValue detached then { sess with dropCount := sess.dropCount + 1 } else sess
+      let x := { x with sess := sess, fills := x.fills.filter (·.1 != id) }
+      (x, if extra == "" then s!"r=ok dc={sess.dropCount}" else extra)
+
+def setThread (x : CS) (t : Thread) : CS := { x with threads := x.threads.map (fun u => if u.tid == t.tid then t else u) }
+
+/-- let thread `t` run its non-atomic code: complete operations that need no further access, start the next
+    operation, until it is blocked at an atomic access or finished -/
+partial def advance (x : CS) (t : Thread) : CS :=
+  match t.cur with
+  | none =>
+    match t.ops with
+    | [] => setThread x { t with finished := true }
+    | op :: rest =>
+      let p := mkOp x op
+      advance x { t with cur := some p, ops := rest }
+  | some p =>
+    let (sh', r, nas) := settle 100000 x.sh p []
+    let x := { x with sh := sh', out := x.out ++ (nas.map (naStr t.tid sh'.st.cap)).toArray }
+    match r with
+    | .blocked p' => setThread x { t with cur := some p' }
+    | .failed f =>
+      let x := { x with out := x.out.push s!"res t={t.tid} i={t.idx} r={failStr f}" }
+      setThread x { t with cur := none, ops := [], finished := true }
+    | .done o =>
+      let (x, txt) := finishOp x o
+      let x := { x with out := x.out.push s!"res t={t.tid} i={t.idx} {txt}" }
+      advance x { t with cur := none, idx := t.idx + 1 }
+
+/-- grant one step to thread `tid` -/
+def grant (x : CS) (tid : Nat) (spurious : Bool) : CS :=
+  match x.threads.find? (·.tid == tid) with
+  | none => { x with out := x.out.push s!"skip t={tid}" }
+  | some t =>
+    if t.finished then { x with out := x.out.push s!"skip t={tid}" }
+    else match t.cur with
+      | none => x
+      | some p =>
+        match stepAccess x.sh p spurious with
+        | .error f =>
+          let x := { x with out := x.out.push s!"res t={t.tid} i={t.idx} r={failStr f}" }
+          setThread x { t with cur := none, ops := [], finished := true }
+        | .ok (sh', p', e) =>
+          let x := { x with sh := sh', out := x.out.push (evStr tid e) }
+          advance x { t with cur := some p' }
+
+def allDone (x : CS) : Bool := x.threads.all (·.finished)
+
+partial def roundRobin (x : CS) (budget : Nat) : CS :=
+  if budget == 0 || allDone x then x
+  else
+    let (x, b) := x.threads.foldl (fun (acc : CS × Nat) t =>
+      let (x, b) := acc
+      match x.threads.find? (·.tid == t.tid) with
+      | some t' => if t'.finished || b == 0 then (x, b) else (grant x t'.tid false, b - 1)
+      | none => (x, b)) (x, budget)
+    roundRobin x b
+
+def pendingStr {α : Type} : Prog α → String
+  | .load l _ _ => s!"k=ld loc={locStr l}"
+  | .store l _ _ _ => s!"k=st loc={locStr l}"
+  | .cas l _ _ w _ _ => s!"k={if w then "casw" else "cas"} loc={locStr l}"
+  | .rmw l _ sub _ _ => s!"k={if sub then "fas" else "faa"} loc={locStr l}"
+  | _ => "k=? loc=?"
+
+end Driver.ConcD
+
+
+namespace Driver.ConcD
+
+open Rarena Rarena.Conc
+
+/-- one case of a `.cases` file (lines up to `end`) -/
+def runCase (lines : List String) : Array String := Id.run do
+  let mut out : Array String := #[]
+  let mut sess : Option Sess := none
+  let mut threads : List Thread := []
+  let mut sched : List (Nat × Bool) := []
+  let mut budget := 3000
+  let mut bad := false
+  for line in lines do
+    let toks := (line.trimAscii.toString.splitOn " ").filter (· != "")
+    match toks with
+    | [] => pure ()
+    | "cfg" :: rest =>
+      match parseCfg rest with
+      | none => out := out.push "bad-op"; bad := true
+      | some o =>
+        match Sess.init o with
+        | none => out := out.push (if o.file || o.anon then "r=io:InvalidInput" else "r=InsufficientSpace"); bad := true
+        | some x => out := out.push s!"r=ok doff={x.cfg.dataOffset} {stateStr x}"; sess := some x
+    | "pre" :: op =>
+      match sess with
+      | none => out := out.push "r=nocase"
+      | some x =>
+        let r := step x op
+        out := out.push r.out
+        sess := r.sess
+    | "thread" :: tid :: rest =>
+      match tid.toNat? with
+      | none => bad := true
+      | some tid =>
+        let ops := (" ".intercalate rest).splitOn " ; " |>.map (fun s => (s.splitOn " ").filter (· != ""))
+        threads := threads ++ [{ tid := tid, ops := ops.filter (· != []) }]
+    | "sched" :: es =>
+      sched := sched ++ es.filterMap (fun e =>
+        if e.endsWith "f" then (e.dropEnd 1).toString.toNat?.map (·, true) else e.toNat?.map (·, false))
+    | ["budget", n] => budget := n.toNat?.getD 3000
+    | ["crash"] => pure ()
+    | _ => out := out.push "bad-op"
+  match sess with
+  | none => return out
+  | some s =>
+    if bad then return out
+    let thrs := threads.mergeSort (fun a b => a.tid ≤ b.tid)
+    -- every thread holds its own clone of the arena, taken before the hook is armed
+    let sh : Shared := { st := s.st, refs := s.refs + thrs.length }
+    let mut x : CS := { sess := s, sh := sh, fills := [], threads := thrs, out := out, fuel := 4000 }
+    for t in thrs do
+      x := advance x t
+    for (tid, sp) in sched do
+      x := grant x tid sp
+    x := roundRobin x budget
+    for t in x.threads do
+      if !t.finished then
+        match t.cur with
+        | some p => x := { x with out := x.out.push s!"hang t={t.tid} i={t.idx} at=0 {pendingStr p}" }
+        | none => pure ()
+    let fs := syncSess x
+    let lv := fs.handles.all (fun (id, hd) =>
+      match x.fills.find? (·.1 == id) with
+      | some (_, b) => (List.range hd.mt.ptrSize).all (fun k => x.sh.st.mem.rd (hd.mt.ptrOff + k) == b.toNat)
+      | none => true)
+    let fin := if x.sh.released > 0 then "final gone" else s!"final {stateStr fs} lv={if lv then 1 else 0}"
+    return x.out.push fin
+
+partial def readAll (h : IO.FS.Stream) (acc : Array String) : IO (Array String) := do
+  let line ← h.getLine
+  if line.isEmpty then return acc else readAll h (acc.push line)
+
+def runFile (lines : Array String) : Array String := Id.run do
+  let mut out : Array String := #[]
+  let mut cur : List String := []
+  for l in lines do
+    if l.trimAscii.toString == "end" then
+      out := out ++ runCase cur.reverse
+      out := out.push "end"
+      cur := []
+    else cur := l :: cur
+  return out
+
+end Driver.ConcD
+
+namespace Driver.HBD
+
+open Rarena Rarena.HB
+
+def parseOrd : String → Gen.Ord
+  | "acq" => .acquire | "rel" => .release | "acqrel" => .acqRel | "sc" => .seqCst | _ => .relaxed
+
+def locKey (s : String) : Nat × Option (Nat × Nat) :=
+  match s with
+  | "sent" => (1, none) | "alloc" => (2, none) | "minseg" => (3, none) | "disc" => (4, none) | "refs" => (5, none)
+  | _ =>
+    match s.splitOn "@" with
+    | ["node", off] => let o := off.toNat?.getD 0; (1000 + o, some (o, o + 8))
+    | _ => (6, none)
+
+/-- one trace line → access -/
+def parseAcc (toks : List String) : Option Acc :=
+  match toks with
+  | "ev" :: rest =>
+    match Driver.kvNat rest "t", Driver.kv rest "k", Driver.kv rest "loc", Driver.kv rest "ord", Driver.kvNat rest "ok" with
+    | some t, some k, some loc, some ord, some ok =>
+      let (key, bytes) := locKey loc
+      let ords := ord.splitOn "/"
+      let o1 := parseOrd (ords.getD 0 "rlx")
+      let o2 := parseOrd (ords.getD 1 "rlx")
+      match k with
+      | "ld" => some (.atomic t .load key bytes o1)
+      | "st" => some (.atomic t .store key bytes o1)
+      | "cas" | "casw" => if ok == 1 then some (.atomic t .rmw key bytes o1) else some (.atomic t .casFail key bytes o2)
+      | "faa" | "fas" => some (.atomic t .rmw key bytes o1)
+      | _ => none
+    | _, _, _, _, _ => none
+  | "na" :: rest =>
+    match Driver.kvNat rest "t", Driver.kv rest "k", Driver.kvNat rest "lo", Driver.kvNat rest "hi", Driver.kv rest "src" with
+    | some t, some k, some lo, some hi, some src => some (.plain t (k != "r") lo hi src)
+    | _, _, _, _, _ => none
+  | _ => none
+
+def runCase (lines : List String) : Array String :=
+  let toksL := lines.map (fun l => (l.trimAscii.toString.splitOn " ").filter (· != ""))
+  let cap := (toksL.findSome? (fun t => Driver.kvNat t "cp")).getD 0
+  let accs := toksL.filterMap parseAcc
+  let threads := (accs.map (fun a => match a with | .atomic t .. => t | .plain t .. => t)).eraseDups
+  let st := check cap threads accs
+  #[s!"hb races={st.races.length} events={accs.length}"] ++ st.races.eraseDups.toArray
+
+def runFile (lines : Array String) : Array String := Id.run do
+  let mut out : Array String := #[]
+  let mut cur : List String := []
+  for l in lines do
+    if l.trimAscii.toString == "end" then
+      out := out ++ runCase cur.reverse
+      out := out.push "end"
+      cur := []
+    else cur := l :: cur
+  return out
+
+end Driver.HBD
+
 def main (args : List String) : IO UInt32 := do
   let stdin ← IO.getStdin
   let stdout ← IO.getStdout
   match args with
   | ["model"] | [] => Driver.loop stdin stdout none; return 0
-  | _ => IO.eprintln "usage: driver model"; return 2
+  | ["conc"] =>
+    let lines ← Driver.ConcD.readAll stdin #[]
+    for l in Driver.ConcD.runFile lines do stdout.putStrLn l
+    return 0
+  | ["hb"] =>
+    let lines ← Driver.ConcD.readAll stdin #[]
+    for l in Driver.HBD.runFile lines do stdout.putStrLn l
+    return 0
+  | _ => IO.eprintln "usage: driver model | conc | hb"; return 2
